@@ -2189,3 +2189,79 @@ mut("c18-pooled-buffer-put-before-use", ["C18"], [("headerfs/store.go", _OLD_POO
 	headerBuf.Reset()
 	headerBufPool.Put(headerBuf)
 ''', "all")], ["C18.R7"])
+
+# ---- helpers with a deferred unlock are inlined too ----
+mut("quiet-helper-with-deferred-unlock", ["C19", "C11", "C18", "C03"], [(BM, '''	b.newFilterHeadersMtx.Lock()
+	b.filterHeaderTip = lastHeight
+	b.filterHeaderTipHash = lastHash
+	b.newFilterHeadersMtx.Unlock()
+	b.newFilterHeadersSignal.Broadcast()
+''', '''	b.zzSetFilterTip(lastHeight, lastHash)
+	b.newFilterHeadersSignal.Broadcast()
+''')], [], new_files=[("zz_settip.go", '''package neutrino
+
+import "github.com/btcsuite/btcd/chainhash/v2"
+
+func (b *blockManager) zzSetFilterTip(height uint32, hash chainhash.Hash) {
+	b.newFilterHeadersMtx.Lock()
+	defer b.newFilterHeadersMtx.Unlock()
+
+	b.filterHeaderTip = height
+	b.filterHeaderTipHash = hash
+}
+''')])
+mut("c19-helper-with-deferred-unlock-skips-hash", ["C19"], [(BM, '''	b.newFilterHeadersMtx.Lock()
+	b.filterHeaderTip = lastHeight
+	b.filterHeaderTipHash = lastHash
+	b.newFilterHeadersMtx.Unlock()
+	b.newFilterHeadersSignal.Broadcast()
+''', '''	b.zzSetFilterTip(lastHeight, lastHash)
+	b.newFilterHeadersSignal.Broadcast()
+''')], ["C19.O3"], new_files=[("zz_settip.go", '''package neutrino
+
+import "github.com/btcsuite/btcd/chainhash/v2"
+
+func (b *blockManager) zzSetFilterTip(height uint32, hash chainhash.Hash) {
+	b.newFilterHeadersMtx.Lock()
+	defer b.newFilterHeadersMtx.Unlock()
+
+	if height == 0 {
+		return
+	}
+	b.filterHeaderTip = height
+	b.filterHeaderTipHash = hash
+}
+''')])
+
+# ---- derived classes of C17.B1 for sends outside the table (campaign W) ----
+_QCTX = '''package query
+
+import "context"
+
+// QueryContext is Query with a context guarding the hand-over.
+func (w *peerWorkManager) QueryContext(ctx context.Context, requests []*Request,
+	options ...QueryOption) chan error {
+
+	qo := defaultQueryOptions()
+	qo.applyQueryOptions(options...)
+
+	errChan := make(chan error%s)
+
+	select {
+	case w.newBatches <- &batch{
+		requests: requests,
+		options:  qo,
+		errChan:  errChan,
+	}:%s
+	case <-w.quit:
+		errChan <- ErrWorkManagerShuttingDown
+	case <-ctx.Done():
+		errChan <- ctx.Err()
+	}
+
+	return errChan
+}
+'''
+mut("quiet-new-fresh-buffer-send", ["C17", "C12"], [], [], new_files=[("query/zz_qctx.go", _QCTX % (", 1", ""))])
+mut("c17-new-send-unbuffered", ["C17"], [], ["C17.B1"], new_files=[("query/zz_qctx.go", _QCTX % ("", ""))])
+mut("c17-new-send-after-handover", ["C17"], [], ["C17.B1"], new_files=[("query/zz_qctx.go", _QCTX % (", 1", "\n\t\terrChan <- nil"))])
